@@ -584,3 +584,99 @@ def serialisers_fresh(ctx):
     stored by parse or by `+` (Script._raw), which nothing invalidates when the commands change."""
     from .common_fresh import serialisers_fresh as run
     run(ctx)
+
+
+@PROP.obligation('C18.length-hint', canaries=[
+    mut.replace_expr('scripts', 'Script.parse', 'len(script) // 2', 'len(script)', 'hex wrapper hands the number of hex characters as the script length'),
+    mut.replace_expr('scripts', 'Script.parse_bytes', 'len(script)', 'len(script) // 2', 'bytes wrapper hands half the script length'),
+])
+def length_hint(ctx):
+    """Script.parse / parse_hex / parse_bytes build the stream and tell parse_bytesio how long the script is (data_length); the parser uses
+    that number to decide whether the WHOLE input is one bare key / signature / 64-byte item. Each wrapper is evaluated on concrete
+    scripts given as bytes and as hex text: the length handed over is the number of BYTES in the stream it built - not the number of hex
+    characters, not half the bytes - and the stream holds exactly the script."""
+    raw = bytes(range(0x51, 0x51 + 16)) * 2          # 32 opcodes: with a doubled length hint (64) the parser reads them as one data item
+    n = 0
+    for meth, arg in (('parse', raw), ('parse', raw.hex()), ('parse_hex', raw.hex()), ('parse_bytes', raw)):
+        q = 'scripts:Script.' + meth
+        fn = ctx.repo.func(q)
+        seen = []
+
+        def hook(it, base, args, kwargs, st, node):
+            seen.append((args, kwargs, node))
+            return S(('var', 'script_obj'))
+        hooks = {'.parse_bytesio': hook, 'BytesIO': lambda it, a, kw, st, node: S(('stream', term(a[0]) if a else None))}
+        it = Interp(ctx.repo, 'scripts', hooks=hooks)
+        try:
+            it.run_function(fn, {'cls': S(('var', 'cls')), 'script': arg})
+        except AnalysisError as e:
+            ctx.undecided('Script.%s on a %s argument not evaluable: %s' % (meth, type(arg).__name__, str(e)[:100]))
+        if len(seen) != 1:
+            ctx.undecided('Script.%s on a %s argument: %d calls of parse_bytesio' % (meth, type(arg).__name__, len(seen)))
+        args, kwargs, node = seen[0]
+        params = [a.arg for a in ctx.repo.func('scripts:Script.parse_bytesio').args.args][1:]
+        bound = dict(zip(params, args))
+        bound.update(kwargs)
+        dl = bound.get('data_length')
+        stream = term(bound.get('script'))
+        n += 1
+        ctx.saw('Script.%s(%s of %d bytes) -> parse_bytesio(stream of %s, data_length=%s)' % (meth, 'hex text' if isinstance(arg, str) else 'bytes', len(raw),
+                                                                                           '%d bytes' % len(stream[1]) if isinstance(stream, tuple) and stream[0] == 'stream' and isinstance(stream[1], bytes) else show(stream)[:30], show(term(dl))[:20]))
+        ctx.require(isinstance(stream, tuple) and stream[0] == 'stream' and stream[1] == raw, q, 'the stream handed to parse_bytesio does not hold exactly the script (%s)' % show(stream)[:60], node)
+        ctx.require(dl in (len(raw), None, 0), q, 'a script of %d bytes given as %s is announced with data_length=%s' % (len(raw), 'hex text' if isinstance(arg, str) else 'bytes', show(term(dl))[:20]), node,
+                    "Script.parse('51' * 32) reads 32 one-byte opcodes as ONE 32-byte data item (length hint 64): parse then serialize does not reproduce the script")
+    ctx.floor(n, 4, 'wrapper scenarios')
+
+
+def _script_num(v):
+    """reference encoding of a script number (CScriptNum::serialize)"""
+    if v == 0:
+        return b''
+    neg, a = v < 0, abs(v)
+    out = bytearray()
+    while a:
+        out.append(a & 0xff)
+        a >>= 8
+    if out[-1] & 0x80:
+        out.append(0x80 if neg else 0)
+    elif neg:
+        out[-1] |= 0x80
+    return bytes(out)
+
+
+@PROP.obligation('C18.text-numbers', canaries=[
+    mut.replace_expr('scripts', 'Script.parse_str', 'encode_num(ival)', 'int_to_varbyteint(ival)', 'numbers in script text encoded as CompactSize'),
+    mut.replace_expr('scripts', 'Script.parse_str', 'encode_num(ival)', "ival.to_bytes((ival.bit_length() + 7) // 8, 'little')", 'numbers in script text encoded without the sign byte'),
+])
+def text_numbers(ctx):
+    """Script.parse_str turns a decimal number in the script text into a data item. That item is the SCRIPT NUMBER of the value
+    (little endian, sign bit in the top byte - 200 is c8 00, not c8, which reads as -72), not its CompactSize (fd 2c 01 for 300). The
+    function is evaluated on a text with numbers around every width boundary; each item must decode back to the number written."""
+    q = 'scripts:Script.parse_str'
+    fn = ctx.repo.func(q)
+    nums = [1, 5, 16, 17, 127, 128, 200, 255, 256, 300, 32767, 32768, 65535, 65536, 8388607, 8388608]
+    seen = []
+
+    def hook(it, args, kwargs, st, node):
+        seen.append(args[0] if args else None)
+        return S(('var', 'script_obj'))
+    it = Interp(ctx.repo, 'scripts', hooks={'cls': hook}, inline=['int_to_varbyteint', 'encode_num'])
+    it.concrete_bytes = True
+    try:
+        it.run_function(fn, {'cls': S(('var', 'cls')), 'script': ' '.join(str(x) for x in nums) + ' OP_DROP'})
+    except AnalysisError as e:
+        ctx.undecided('Script.parse_str not evaluable on a text with numbers: %s' % str(e)[:100])
+    if len(seen) != 1 or not isinstance(seen[0], list) or len(seen[0]) != len(nums) + 1:
+        ctx.undecided('Script.parse_str: the item list handed to the constructor was not captured (%s)' % show(term(seen[0]) if seen else None)[:60])
+    bad = 0
+    for v, item in zip(nums, seen[0]):
+        item = bytes(item) if isinstance(item, (list, bytearray)) and all(isinstance(b, int) for b in item) else item
+        if not isinstance(item, bytes):
+            ctx.undecided('Script.parse_str: item for the number %d is %s' % (v, show(term(item))[:40]))
+        ok = item == _script_num(v) or (1 <= v <= 16 and item == bytes([v]))
+        if not ok:
+            bad += 1
+            dec = int.from_bytes(item[:-1] + bytes([item[-1] & 0x7f]), 'little') * (-1 if item and item[-1] & 0x80 else 1) if item else 0
+            ctx.violate(q, 'the number %d in a script text becomes the data item %s, which reads as the script number %d (script number encoding: %s)' % (v, item.hex(), dec, _script_num(v).hex()), fn,
+                        "Script.parse_str('200 OP_DROP') pushes c8 = -72; 300 becomes the CompactSize fd2c01")
+    ctx.saw('%d numbers in a script text, %d encoded wrongly' % (len(nums), bad))
